@@ -12,7 +12,7 @@ def sh(cmd, cwd=None, timeout=3600):
     return p.returncode, p.stdout
 
 def main():
-    a = sys.argv[1:]
+    a = [x for x in sys.argv[1:] if x != "--in-repo"]
     tier = "quick"
     if "--tier" in a:
         i = a.index("--tier"); tier = a[i + 1]; del a[i:i + 2]
@@ -65,23 +65,39 @@ def main():
             meta["suite_summary"] = os_.strip().splitlines()[0] if os_.strip() else ""
     finally:
         sh(["git", "-C", "/repo", "worktree", "remove", "--force", wt])
-    # ---- 2. run the checks against /repo with the patch applied
+    # ---- 2. run the checks with the patch applied. Default: on a scratch worktree (VERIF_REPO), so that /repo
+    # and /verif/evidence are never touched and several evaluations can run side by side; --in-repo applies the
+    # patch to /repo itself (git apply ... git checkout -- .), exactly as the registered commands see it.
+    in_repo = "--in-repo" in sys.argv
     if meta.get("patch_applies"):
-        rc, o = sh(["git", "-C", "/repo", "status", "--porcelain"])
-        if o.strip():
-            print("refusing: /repo is not clean"); return 2
-        sh(["git", "-C", "/repo", "apply", patch])
+        envx = dict(env)
+        wt2 = "/tmp/seedeval-run-%d" % os.getpid()
+        if in_repo:
+            rc, o = sh(["git", "-C", "/repo", "status", "--porcelain"])
+            if o.strip():
+                print("refusing: /repo is not clean"); return 2
+            sh(["git", "-C", "/repo", "apply", patch])
+        else:
+            sh(["git", "-C", "/repo", "worktree", "add", "-q", "--detach", wt2, "HEAD"])
+            sh(["git", "apply", patch], cwd=wt2)
+            envx["VERIF_REPO"] = wt2
+            envx["VERIF_OUT_DIR"] = wt2 + ".out"
         try:
             for cid in checks:
                 t0 = time.time()
-                rc, o = sh([os.path.join(ROOT, "vcheck"), "run", cid, tier], cwd=ROOT)
+                pr = subprocess.run([os.path.join(ROOT, "vcheck"), "run", cid, tier], cwd=ROOT, env=envx, stdout=subprocess.PIPE, stderr=subprocess.STDOUT, text=True)
+                rc, o = pr.returncode, pr.stdout
                 viol = [l for l in o.splitlines() if l.startswith("VIOLATION")]
                 sigs = [l.strip() for l in o.splitlines() if l.strip().startswith("signature:")]
                 meta["ran"].append({"check": cid, "tier": tier, "exit": rc, "violations": len(viol), "signatures": sigs[:6], "wall_s": round(time.time() - t0, 1), "summary": o.splitlines()[0] if o else ""})
                 print("  %s %s: exit=%d violations=%d %s" % (cid, tier, rc, len(viol), sigs[:2]))
         finally:
-            sh(["git", "-C", "/repo", "checkout", "--", "."])
-            sh(["git", "-C", "/repo", "clean", "-fdq"])
+            if in_repo:
+                sh(["git", "-C", "/repo", "checkout", "--", "."])
+                sh(["git", "-C", "/repo", "clean", "-fdq"])
+            else:
+                sh(["git", "-C", "/repo", "worktree", "remove", "--force", wt2])
+                shutil.rmtree(wt2 + ".out", ignore_errors=True)
             # restore evidence of the unchanged tree is the caller's business (re-run the checks)
     meta["detected_by"] = [r["check"] for r in meta["ran"] if r["exit"] == 1]
     json.dump(meta, open(os.path.join(out, "meta.json"), "w"), indent=1)
